@@ -298,6 +298,16 @@ func runC10(c *Ctx) {
 		}
 	}
 	R.Notes["assumed_total"] = sortedKeys(assumed)
+	// containment between connections: what a refused / hostile connection may do to the registry (rules of C11)
+	R.Rules["E5.own-key"] = "a connection records a key as its own only after the join succeeded (a refused duplicate leaves with the empty key and cannot evict the owner)"
+	R.Rules["E5.refuse"] = "the key-exists refusal ends only the refused connection"
+	R.Rules["E5.insert-if-absent"] = "a join inserts only after a failed lookup of the same key and otherwise answers with the key-exists error, performing no update"
+	R.Rules["E5.confine"] = "the key→session map is created in the manager goroutine and never leaves it; operations sent to the manager are executed only there"
+	R.Rules["E5.leave"] = "leave is a synchronous round trip through the manager that deletes exactly the given key"
+	R.Rules["E5.stop-order"] = "teardown leaves the registry before anything else and runs once"
+	R.Rules["E5.route"] = "commands are routed through the same map: hit → that session's channel, miss → immediate not-exist error"
+	c.sessionRules(true)
+	R.Require("E5.own-key", 1, "")
 	R.Require("E1.index", 20, "")
 	R.Require("E1.slice", 60, "")
 	R.Require("E1.nil", 1, "")
